@@ -673,50 +673,32 @@ theorem synced_delGlyph {s : State} (h : Synced s) (ln gn : String) : Synced (de
         simp only
         by_cases hc : gn ∈ b.contents
         · simp only [hc, if_true]
-          cases hss : schedStamp s l b gn with
-          | error e =>
-            simp only
-            refine synced_setLayer h ln _ fun dl hdl => ?_
-            obtain ⟨_, b', hb1, _, hb3, _⟩ := facts dl hdl
-            rw [hgs] at hb1
-            injection hb1 with hb1
-            subst hb1
-            unfold schedStamp at hss
-            split at hss
-            · cases hss
-            · simp [hb3] at hss
-          | ok st =>
-            simp only
-            apply synced_afterDelete
-            refine synced_setLayer h ln _ fun dl hdl => ?_
-            obtain ⟨hs, b', hb1, hb2, hb3, _, f', hf'⟩ := facts dl hdl
-            rw [hgs] at hb1
-            injection hb1 with hb1
-            subst hb1
-            unfold schedStamp at hss
-            split at hss
-            · rename_i f hbind
-              injection hss with hss
-              subst hss
-              cases hg : AL.get? l.glyphs gn with
-              | none => simp [hg] at hbind
-              | some g =>
-                simp [hg] at hbind
-                obtain ⟨f2, hf2, hb2'⟩ := hs.glyphs gn g f (AL.mem_of_get? hg) hbind
-                rw [hf'] at hf2
-                injection hf2 with hf2
-                subst hf2
-                have key := layerSynced_del hs hf' hb2'
-                rw [hgs] at key
-                exact key
-            · simp only [hb3, Bool.not_true, Bool.false_eq_true, if_false] at hss
-              injection hss with hss
-              subst hss
-              obtain ⟨f, hv, hbl⟩ := disk_glif_in_view h hdl hf'
-              rw [hb2, hv]
-              have key := layerSynced_del hs hf' hbl
+          apply synced_afterDelete
+          refine synced_setLayer h ln _ fun dl hdl => ?_
+          obtain ⟨hs, b', hb1, hb2, hb3, _, f', hf'⟩ := facts dl hdl
+          rw [hgs] at hb1
+          injection hb1 with hb1
+          subst hb1
+          unfold schedStamp
+          split
+          · rename_i f hbind
+            cases hg : AL.get? l.glyphs gn with
+            | none => simp [hg] at hbind
+            | some g =>
+              simp [hg] at hbind
+              obtain ⟨f2, hf2, hb2'⟩ := hs.glyphs gn g f (AL.mem_of_get? hg) hbind
+              rw [hf'] at hf2
+              injection hf2 with hf2
+              subst hf2
+              have key := layerSynced_del hs hf' hb2'
               rw [hgs] at key
               exact key
+          · simp only [hb3, Bool.not_true, Bool.false_eq_true, if_false]
+            obtain ⟨f, hv, hbl⟩ := disk_glif_in_view h hdl hf'
+            rw [hb2, hv]
+            have key := layerSynced_del hs hf' hbl
+            rw [hgs] at key
+            exact key
         · simp only [hc, if_false]
           apply synced_afterDelete
           refine synced_setLayer h ln _ fun dl hdl => ?_
@@ -2055,6 +2037,7 @@ theorem synced_step_aux {s : State} (h : Synced s) (op : Op) (hq : Quiet op) : S
     exact synced_lastReport (synced_afterTest h) _
   | reloadpart p => exact synced_reloadPart h p
   | gnew _ _ => exact absurd hq (by simp [Quiet])
+  | grename _ _ _ => exact absurd hq (by simp [Quiet])
   | lnew _ => exact absurd hq (by simp [Quiet])
   | ldel _ => exact absurd hq (by simp [Quiet])
   | lorder _ => exact absurd hq (by simp [Quiet])
